@@ -11,6 +11,7 @@ function` and Properties/C20.v restates the headline theorems about the generate
                          _get_hexmesh          -> gen_mesh_centres           (loop order and centre formula)
                          draw_property_layers  -> gen_layer_image_cmap / _color, gen_hex_layer_colors
   altair_components.py   _get_agent_data_*     -> gen_altair_xy_old / _new / _cont  + loop-header skeleton
+                         _draw_grid            -> gen_altair_enc_dict / gen_altair_enc_flags (source dict of the encodings)
 
 The vocabulary (types, select, pop_*, is_slider, ...) is coq/Common/VizTypes.v, imported locally in a Section so
 that no name leaks into Generated/Tables.v.  Everything outside the translated subset is `Broken` (fail closed)."""
@@ -780,6 +781,59 @@ def c_altair():
                  f"Definition gen_altair_xy_cont (p : Z * Z) : Z * Z := {cont}.")
 
 
+@_guard
+def c_altair_enc():
+    """_draw_grid: WHICH dict the tooltip / color / size encodings are read from and how it is built
+    (all rows, setdefault in row order -> rows_union; the first row only -> rows_first), which key decides
+    which encoding, which keys become tooltips"""
+    fn = T._find_func(T._parse(ALTAIR), "_draw_grid")
+    body = _nodoc(fn.body)
+    src = None
+    kind = None
+    for i, st in enumerate(body):
+        t = ast.unparse(st)
+        m = re.fullmatch(r"(\w+) = all_agent_data\[0\] if all_agent_data else \{\}", t)
+        if m:
+            src, kind = m.group(1), "rows_first rows"
+        m = re.fullmatch(r"(\w+) = \{\}", t)
+        if m and i + 1 < len(body) and ast.unparse(body[i + 1]).replace("for (key, value) in", "for key, value in") == (
+                f"for agent_data in all_agent_data:\n    for key, value in agent_data.items():\n        {m.group(1)}.setdefault(key, value)"):
+            src, kind = m.group(1), "rows_union rows"
+    if src is None:
+        raise T.Broken("_draw_grid: the dict the encodings are derived from was not recognised")
+    asg = {}
+    for st in body:
+        if isinstance(st, ast.Assign) and isinstance(st.targets[0], ast.Name):
+            asg[st.targets[0].id] = st.value
+    if ast.unparse(asg.get("invalid_tooltips", ast.Constant(0))) != "['color', 'size', 'x', 'y']":
+        raise T.Broken("_draw_grid: invalid_tooltips changed")
+    flags = {}
+    for name in ("has_color", "has_size"):
+        v = asg.get(name)
+        m = re.fullmatch(r"'(\w+)' in (\w+)", ast.unparse(v)) if v is not None else None
+        if not m or m.group(2) != src or m.group(1) not in ("color", "size", "marker", "zorder"):
+            raise T.Broken(f"_draw_grid: {name} is not `<key> in {src}`")
+        flags[name] = m.group(1)
+    tips = [n for n in ast.walk(fn) if isinstance(n, ast.ListComp) and "alt.Tooltip" in ast.unparse(n.elt)]
+    if len(tips) != 1:
+        raise T.Broken("_draw_grid: tooltip comprehension not found")
+    g = tips[0].generators[0]
+    if ast.unparse(g.iter) != f"{src}.items()" or [ast.unparse(x) for x in g.ifs] != ["key not in invalid_tooltips"] \
+            or not ast.unparse(tips[0].elt).startswith("alt.Tooltip(key,"):
+        raise T.Broken("_draw_grid: tooltips are not `alt.Tooltip(key, ...) for key, value in <dict>.items() if key not in invalid_tooltips`")
+    uses = {"color": ("alt.Color('color', type='nominal')", "has_color"), "size": ("alt.Size('size', type='quantitative')", "has_size")}
+    txt = ast.unparse(fn)
+    for enc, (call, flag) in uses.items():
+        if f"if {flag}:\n        encoding_dict['{enc}'] = {call}" not in txt:
+            raise T.Broken(f"_draw_grid: `if {flag}: encoding_dict['{enc}'] = {call}` not found")
+    invalid = {"color", "size", "x", "y"}
+    tip = lambda k: f"oflag (pd_{k} d)" if k not in invalid else "0"  # noqa: E731
+    return _wrap("altair_enc",
+                 f"Definition gen_altair_enc_dict (rows : list arow) : pdict := {kind}.\n"
+                 f"Definition gen_altair_enc_flags (d : pdict) : list Z :=\n"
+                 f"  [oflag (pd_{flags['has_color']} d); oflag (pd_{flags['has_size']} d); {tip('marker')}; {tip('zorder')}].")
+
+
 def _fb(name, text):
     return lambda: _wrap(name, text)
 
@@ -804,4 +858,7 @@ CONSTRUCTS = [
     ("viz_altair_code", ALTAIR, c_altair, _fb("altair",
         "Definition gen_altair_xy_old (p : Z * Z) : Z * Z := (0, 0).\nDefinition gen_altair_xy_new (p : Z * Z) : Z * Z := (0, 0).\n"
         "Definition gen_altair_xy_cont (p : Z * Z) : Z * Z := (0, 0).")),
+    ("viz_altair_enc_code", ALTAIR, c_altair_enc, _fb("altair_enc",
+        "Definition gen_altair_enc_dict (rows : list arow) : pdict := pd_empty.\n"
+        "Definition gen_altair_enc_flags (d : pdict) : list Z := [].")),
 ]
